@@ -128,6 +128,13 @@ def run(ctx):
     ctx.rule("R9", "the operator applied by the Davidson drivers is the singlet CIS Hamiltonian A (and the RPA coupling B): two-electron response of a non-symmetric transition density and the full matrix-vector product, chunked and unchunked (abstract interpretation, sa/npsym.py)")
     from ..assembly import check_cis_operator
     check_cis_operator(ctx, "R9")
+    ctx.rule("R10", "the active space is the documented orbital window: the n highest occupied and the m lowest virtual orbitals, windows beyond the orbital space are rejected "
+                    "(abstract interpretation of get_occ_virt and of the window arithmetic of calc_cis_energy)")
+    from ..assembly import interpreted_orbital_window
+    rc_ = repo.mod("seqm/seqm_functions/rcis_batch.py")
+    okw, msgw, nw = interpreted_orbital_window(repo)
+    ctx.check(okw, "R10", rc_, rc_.func("get_occ_virt"), "get_occ_virt", "orbital window",
+              f"{nw} interpreted requests: active space, orbital-energy differences and rejections follow the documented (n below HOMO, m above LUMO) window", msgw)
     from ..assembly import check_cis_energy
     check_cis_energy(ctx, "R9")
     from ..assembly import check_phase_alignment
